@@ -72,6 +72,61 @@ Proof.
   - apply IH; [exact N1'|exact N2|]. intros y Hy1 Hy2. exact (D y (or_intror Hy1) Hy2).
 Qed.
 
+Lemma incl_perm_split : forall (A : Type) (Lp L : list A), NoDup Lp -> incl Lp L -> exists rest, Permutation L (Lp ++ rest).
+Proof.
+  intros A Lp. induction Lp as [|x r IH]; intros L ND Hi; [exists L; reflexivity|].
+  inversion ND as [|? ? Hn ND']; subst.
+  assert (Hx : In x L) by (apply Hi; left; reflexivity). apply in_split in Hx. destruct Hx as (l1 & l2 & ->).
+  destruct (IH (l1 ++ l2) ND') as (rest & Hp).
+  { intros y Hy. assert (In y (l1 ++ x :: l2)) by (apply Hi; right; exact Hy). apply in_app_or in H. apply in_or_app.
+    destruct H as [H|[H|H]]; [left; exact H|subst; contradiction|right; exact H]. }
+  exists rest. cbn. eapply perm_trans; [apply Permutation_sym; apply Permutation_middle|]. constructor. exact Hp.
+Qed.
+
+(** the command groups of a fully valid block succeed whenever its parent's chain is applied - whatever else is *)
+Lemma groups_succeed_sub : forall base s p x b,
+    wf s -> canon base s -> truthful base s -> is_act (cores s) p ->
+    0 <= hgt (cores s) p - hgt (cores s) (root _ _ s) ->
+    bfind (blocks _ _ s) x = Some b -> b_par _ b = p -> x <> root _ _ s -> N.le L_FULL (b_lvl _ b) ->
+    exists p', gsexec pstate ccmd cexec cunexec [] (b_gs _ b) (pst _ _ s) = (p', true).
+Proof.
+  intros base s p x b W C T Hpa Hd0 Fb Hp Hxr Hl.
+  pose proof (find_cfind _ _ _ Fb) as Cb. pose proof (find_some_in _ _ _ Fb) as [Hin Hid].
+  pose proof (wf_parent_height _ _ _ W Cb Hxr) as Hph. change (e_par (core b)) with (b_par ccmd b) in Hph. rewrite Hp in Hph.
+  assert (Hl' : N.leb L_FULL (b_lvl ccmd b) = true) by (apply N.leb_le; exact Hl).
+  destruct (T b Hin Hl') as (p' & Hp'). rewrite Hid in Hp'.
+  assert (Hd : depth s x = S (depth s p)).
+  { unfold depth. rewrite Hph.
+    replace (hgt (cores s) p + 1 - hgt (cores s) (root pstate ccmd s)) with (Z.succ (hgt (cores s) p - hgt (cores s) (root pstate ccmd s))) by lia.
+    rewrite Z2Nat.inj_succ by lia. reflexivity. }
+  rewrite Hd in Hp'. unfold bgs in Hp'. cbn [anc_list map rev] in Hp'.
+  assert (Hpar : parent (cores s) x = p) by (unfold parent; rewrite Cb; exact Hp).
+  rewrite Hpar in Hp'. fold (bgs s (depth s p) p) in Hp'. rewrite replay_app in Hp'.
+  destruct (replay (bgs s (depth s p) p) base) as [pr0|] eqn:Hr0; [|discriminate].
+  assert (Hg : gs_of s x = b_gs ccmd b) by (unfold gs_of; rewrite Fb; reflexivity).
+  rewrite Hg in Hp'. cbn in Hp'.
+  destruct (gsexec pstate ccmd cexec cunexec [] (b_gs ccmd b) pr0) as [q ok] eqn:E. destruct ok; [|discriminate].
+  (* the applied ids: the chain of p plus the rest *)
+  destruct (anc_list_active s (depth s p) p W Hpa) as [AL NDp].
+  { unfold depth. rewrite Z2Nat.id by exact Hd0. lia. }
+  pose proof W as (ND & _).
+  assert (Hincl : incl (anc_list (cores s) (depth s p) p) (act_ids (cores s))).
+  { intros j Hj. apply (act_ids_in _ _ ND). apply AL. exact Hj. }
+  destruct (incl_perm_split _ _ _ NDp Hincl) as (rest & HP).
+  assert (NDL : NoDup (anc_list (cores s) (depth s p) p ++ rest)) by (eapply Permutation_NoDup; [exact HP|apply act_ids_nodup; exact ND]).
+  assert (AE : forall j, is_act (cores s) j <-> In j (anc_list (cores s) (depth s p) p ++ rest)).
+  { intros j. rewrite <- (act_ids_in _ _ ND). split; intro Hj; [eapply Permutation_in; [exact HP|exact Hj]|eapply Permutation_in; [symmetry; exact HP|exact Hj]]. }
+  pose proof (active_items_ids s _ W NDL AE) as HA. rewrite map_app, flat_map_app in HA.
+  set (extra := flat_map block_items (map (gs_of s) rest)) in *.
+  assert (HPp : Permutation (pr0 ++ extra) (pst _ _ s)).
+  { destruct C as [CP _]. symmetry. eapply perm_trans; [exact CP|]. eapply perm_trans; [apply Permutation_app_tail; exact HA|].
+    rewrite <- app_assoc. eapply perm_trans; [apply Permutation_app_head; apply Permutation_app_comm|]. rewrite app_assoc.
+    apply Permutation_app_tail. symmetry. eapply perm_trans; [apply replay_items; exact Hr0|].
+    apply Permutation_app_tail. unfold bgs. apply flat_map_rev_perm. }
+  pose proof (gsexec_mono _ [] [] _ _ extra E) as E2.
+  destruct (gsexec_perm _ [] [] _ _ _ HPp E2) as (q' & E' & _). exists q'. exact E'.
+Qed.
+
 (** ** the state while the candidate chain is applied next to the active chain *)
 Section Twin.
   Variable base : pstate.
